@@ -12,7 +12,6 @@ NOT_APPLICABLE = {
  "C03": "agreement of DKG outputs and reconstruct = dlog(pk) are arithmetic; enforcement points (NewBaseShard guard, share/proof verification, decoders) are decided under C04, C05, C12",
  "C14": "equality of limb arithmetic, addition formulas, scalar multiplication and pairings with the mathematical operations is numerical for every operand",
  "C20": "exactness of interpolation and Gaussian elimination (and 'fails only when no solution exists') is a statement about ranks and field values",
- "C07": "not yet implemented in this revision (reader-provenance engine pending)",
 }
 
 G = "guard inventory (AST + go/cfg + go/types): "
@@ -31,3 +30,5 @@ claim("C16", "guard-inventory", "Only the two structural mechanisms: ciphertext-
 claim("C17", "guard-inventory", "Discipline only: error-returning big-number APIs keep their failure guards. Does not decide any numerical result.", NOTE_COMMON, "§5 C17")
 claim("C18", "guard-inventory", "Decides that every Open reaches an effective equality guard and key constructors keep their guards. Does not decide hiding/binding.", NOTE_COMMON, "§5 C18")
 claim("C19", "guard-inventory", "Decides guards of transcript and hash-to-curve code are intact. Framing rule pending.", NOTE_COMMON, "§5 C19")
+
+claim("C07", "reader-provenance dataflow + sampler inventory", "Decides that every io.Reader consumed by library code originates from the caller's reader (parameter / field stored from a parameter / enumerated deterministic derivation), that no ambient entropy source or reader-ignoring stdlib function is used (three known findings listed), that sampler errors are not ignored, reads are full-length into non-empty buffers, and that no function stops sampling compared with the frozen sampler inventory. Does not decide statistical quality or that joint values combine all contributions.", NOTE_COMMON, "§5 C07")
